@@ -49,6 +49,10 @@ Proof. exact (fun H1 H2 => factory_complete ms bs H1 H2 l r). Qed.
 Theorem C13_empty_iff_no_run ms bs l : 0 < ms -> ms <= bs -> (factory_ranges ms bs l = [] <-> forall r, ~ seg_ok ms bs l r).
 Proof. exact (fun H1 H2 => factory_empty_iff_no_run ms bs H1 H2 l). Qed.
 
+Example C13_complete_nonvacuous : seg_ok 1000 1200 [1000; -250; 1000] (0%nat, 3%nat, 1750) /\
+  factory_ranges 1000 1200 [1000; -250; 1000] = [(0%nat, 3%nat, 1750)] /\ 0 < 1000 <= 1200.
+Proof. exact complete_example. Qed.
+
 (* Observation O1 - NOT a clause of C13, stated so that the exact strength of the last sentence is visible: the property says "if no run
    qualifies a single empty segment is returned"; the converse is false of the code (a rejected currentSegment is not reset after a break
    and its stale score hides later runs): a run meeting every clause can exist while nothing is returned.  No check demands the converse (for ms <= bs it is a theorem: C13_complete). *)
